@@ -136,6 +136,9 @@ def jobs_for(tier):
     add(3, params=[(2, 3)], mpd=2, merge=False, graft="adam", nesterov=True, bias_corr=True, decoupled=True, pf=1, sps=2)
     add(3, params=[(2, 2), (3,)], mpd=2, merge=True, graft="rmsprop", nesterov=False, bias_corr=False, decoupled=False, pf=2, sps=2, presence="symbolic", stops=[1, 2])
     add(3, params=[(2, 2)], mpd=2, merge=False, graft=None, nesterov=False, bias_corr=True, decoupled=True, pf=1, sps=2, precond="soap_eigh", stops=[1, 2])
+    # SOAP with a stale basis between refreshes: the step after the stop is not a refresh step
+    add(4, params=[(2, 2)], mpd=2, merge=False, graft="adam", nesterov=False, bias_corr=True, decoupled=True, pf=2, sps=2, precond="soap_eigh", stops=[2, 3], fixed=dict(mom=0))
+    add(3, params=[(2, 2)], mpd=2, merge=False, graft=None, nesterov=False, bias_corr=True, decoupled=True, pf=2, sps=2, precond="soap_qr", stops=[2], fixed=dict(mom=0, wd=0))
     add(2, params=[(2, 2), (2,)], groups=[[0], [1]], mpd=2, merge=False, graft="sgd", nesterov=True, bias_corr=True, decoupled=True, pf=1, sps=1, stops=[1])
     # a block that carries no Kronecker factor (every dimension ignored)
     add(2, params=[(1, 3)], mpd=4, merge=True, graft=None, nesterov=False, bias_corr=True, decoupled=True, pf=1, sps=1, ignored_dims=[0], fixed=dict(b1=0, mom=0), assume_generic=False, stops=[1])
